@@ -327,12 +327,33 @@ class LockModel:
 # data dependence (backward slice)
 # --------------------------------------------------------------------------------------
 
-def backward_slice(body, operand, _seen=None):
+def controlling_switches(body, v, _cache={}):
+    """switch blocks on which block v is control dependent (one successor can reach v, another cannot)"""
+    from nl import core as _core
+    key = (id(body), v)
+    if key in _cache:
+        return _cache[key]
+    out = []
+    for bi in body.reachable():
+        t = body.term(bi)
+        if t['k'] != 'switch':
+            continue
+        succ = [x for x in body.succ(bi) if not body.blocks[x].get('cleanup') and body.term(x)['k'] != 'unreachable']
+        can = [v in _core.reachable_without(body, set(), start=x) for x in succ]
+        if any(can) and not all(can):
+            out.append(bi)
+    _cache[key] = out
+    return out
+
+
+def backward_slice(body, operand, _seen=None, control=False):
     """call blocks and params the value of `operand` transitively depends on (through every
-    rvalue kind and through call arguments)"""
+    rvalue kind and through call arguments).  control=True: a local that is assigned in several blocks (the two arms of a
+    `match` that yield `true` / `false`) also depends on the switches that decide which assignment runs."""
     seen_locals = set()
     calls = set()
     params = set()
+    seen_sw = set()
 
     def visit_op(o):
         if 'k' in o or 'rt' in o:
@@ -349,7 +370,14 @@ def backward_slice(body, operand, _seen=None):
         seen_locals.add(l)
         if 1 <= l <= body.argc:
             params.add(l)
-        for (bi, si, kind, pl) in body.defs().get(l, []) + body.defs().get(('partial', l), []):
+        dl_ = body.defs().get(l, []) + body.defs().get(('partial', l), [])
+        if control and len({bi for (bi, _si, _k, _pl) in dl_}) > 1:
+            for (bi, _si, _k, _pl) in dl_:
+                for sw in controlling_switches(body, bi):
+                    if sw not in seen_sw:
+                        seen_sw.add(sw)
+                        visit_op(body.term(sw)['o'])
+        for (bi, si, kind, pl) in dl_:
             if kind == 'call':
                 calls.add(bi)
                 for a in pl['args']:
